@@ -31,6 +31,28 @@ impl Kanata {
             }
         }
         self.cur_keys.extend(self.layout.bm().keycodes());
+        // Keys that unmod/unshift have released at the OS are not pressed at the output, even
+        // though keyberon still holds them; never repeat them. Mirrors handle_keystate_changes.
+        if !self.unmodded_keys.is_empty() {
+            for mod_key in self.unmodded_mods.iter() {
+                let kc = match mod_key {
+                    UnmodMods::LSft => KeyCode::LShift,
+                    UnmodMods::RSft => KeyCode::RShift,
+                    UnmodMods::LAlt => KeyCode::LAlt,
+                    UnmodMods::RAlt => KeyCode::RAlt,
+                    UnmodMods::LCtl => KeyCode::LCtrl,
+                    UnmodMods::RCtl => KeyCode::RCtrl,
+                    UnmodMods::LMet => KeyCode::LGui,
+                    UnmodMods::RMet => KeyCode::RGui,
+                    _ => unreachable!("all bits of u8 should be covered"),
+                };
+                self.cur_keys.retain(|k| *k != kc);
+            }
+        }
+        if !self.unshifted_keys.is_empty() {
+            self.cur_keys
+                .retain(|k| !matches!(k, KeyCode::LShift | KeyCode::RShift));
+        }
         self.overrides
             .override_keys(&mut self.cur_keys, &mut self.override_states);
 
